@@ -372,6 +372,8 @@ def main():
                     else:
                         v = D.random_sam_game(n, rng)
                     games_f.append([float(x) for x in v])
+                if rng.random() < 0.1:
+                    games_f = [[x * 2.0 ** -30 for x in g] for g in games_f]      # very small magnitude, still exact
                 if rng.random() < 0.15 and cls == "SA":      # an additive game: surplus exactly 0
                     w = [rng.randint(0, 5) for _ in range(n)]
                     games_f[1] = [float(sum(w[j] for j in range(n) if c >> j & 1)) for c in range(2 ** n)]
